@@ -49,6 +49,7 @@ class Skel:
         self.stop = stop
         self.mem_default = mem_default
         self.alg = None
+        self.unknown_cond = None     # optional: decides a branch whose condition is data (a rule runs the skeleton once per choice)
         self.tu = tu if tu is not None else getattr(fn, "tu", None)
         self.alias = {}          # declaration id of a reference parameter / local -> key of the object it names
         self.depth = 0
@@ -220,6 +221,8 @@ class Skel:
                     self.alias = saved_alias
                     return NotImplemented
                 self.alias[p["did"]] = key
+            elif ty.endswith("&") and self.lvalue(a) is not None:
+                self.alias[p["did"]] = self.lvalue(a)      # const reference / forwarding reference to a named object
             else:
                 self.env[p["did"]] = self.ev(a)
         self.depth += 1
@@ -360,6 +363,8 @@ class Skel:
             return
         if k == "IfStmt":
             c = self.ev(kids(s)[0])
+            if c is None and self.unknown_cond is not None:
+                c = self.unknown_cond(kids(s)[0], self)
             if c is None:
                 raise dtable.Undecidable("%s: branch depends on data at line %s: %s" % (self.fn.full, s.get("l"), dtable.describe(kids(s)[0])[:60]))
             br = kids(s)[1] if c else (kids(s)[2] if len(kids(s)) > 2 else None)
